@@ -54,7 +54,7 @@ func init() {
 func init() {
 	langAssume := []string{
 		"reference semantics = DESIGN.md section 4 (harness/ref/lang.go): set-based denotational matcher over reading states, maximal-munch option groups; verdicts hinging on U1/U2 (spec-level `--` over a partially consumed run, reach-over a malformed token) or on the group reading are counted as unclaimed, never judged",
-		"declared program: flags a/aa, b/bb, valued o/out, arguments X, Y (logging custom flag.Value types, and built-in Bool/Strings types in the builtin tiers)",
+		"declared programs: (std) flags a/aa, b/bb, valued o/out, arguments X, Y (logging custom flag.Value types, and built-in Bool/Strings types in the builtin tiers); (alt, own tiers) a flag whose long name is listed first (--aa/-a), a flag with two short names (-n/-m), a valued option with three names (--out/-o/--output), argument X",
 	}
 	addProp(&propDef{
 		ID: "C01", Check: "lang", Level: "model_checking",
@@ -82,7 +82,7 @@ func init() {
 func init() {
 	metaAssume := []string{
 		"metamorphic: the implementation is compared with itself on two command lines that the property declares equivalent; the reading of a command line into occurrences/positionals (harness/ref/reading.go, DESIGN.md 4.2) decides which pairs are compared and is written from the documentation",
-		"declared program: flags a/aa, b/bb, valued o/out, arguments X, Y (logging custom flag.Value types)",
+		"declared programs: (std) flags a/aa, b/bb, valued o/out, arguments X, Y; (alt, own tier) --aa/-a flag, -n/-m flag, --out/-o/--output valued option, X (logging custom flag.Value types)",
 	}
 	addProp(&propDef{
 		ID: "C09", Check: "meta", Level: "exploration",
